@@ -85,12 +85,11 @@ func (f *GitFilter) copyToTemp(reader io.Reader, fileSize int64, cb tools.CopyCa
 		return
 	}
 
-	var from io.Reader = bytes.NewReader(by)
-	if fileSize < 0 || int64(len(by)) < fileSize {
-		// If there is still more data to be read from the file, tack on
-		// the original reader and continue the read from there.
-		from = io.MultiReader(from, reader)
-	}
+	// Tack on the original reader and continue the read from there. The
+	// expected size is only a hint for progress reporting (it is taken
+	// from whatever file currently sits at that path in the working tree)
+	// and must not decide how much of the input is consumed.
+	from := io.MultiReader(bytes.NewReader(by), reader)
 
 	size, err = tools.CopyWithCallback(writer, from, fileSize, cb)
 
